@@ -23,6 +23,7 @@ type concCall struct {
 	PKey   string `json:"pkey"`
 	DKey   string `json:"dkey"`
 	Shared int    `json:"shared"` // index of the shared precompiled handle (validateCompiled)
+	Cfg    string `json:"cfg"`    // report configuration: "" / "default" | "alt"
 }
 
 type concCase struct {
@@ -40,7 +41,7 @@ type concCase struct {
 
 type concObs struct {
 	histObs
-	Genvars  [][]int `json:"genvars"` // values handed out, per phase (solo, concurrent)
+	Genvars  [][]int `json:"genvars"` // identifier counter values handed out, one list per compilation (call)
 	NThreads int     `json:"nthreads"`
 }
 
@@ -50,18 +51,41 @@ func runConcurrent(c concCase) concObs {
 	obs.Calls = []histCall{}
 	obs.Milestones = []msObs{}
 	obs.NThreads = len(c.Goroutines)
-	repCfg := config.DefaultReportConfiguration()
+	// the hook runs in the goroutine that is compiling: values are attributed to that goroutine's current call
 	var mu sync.Mutex
-	var vals []int
+	perCall := map[uint64][][]int{}
 	verifexport.SetGenvarHook(func(hint string, v int) {
+		g := goid()
 		mu.Lock()
-		vals = append(vals, v)
+		if len(perCall[g]) == 0 {
+			perCall[g] = [][]int{{}}
+		}
+		last := len(perCall[g]) - 1
+		perCall[g][last] = append(perCall[g][last], v)
 		mu.Unlock()
 		if c.Yield {
 			runtime.Gosched()
 		}
 	})
 	defer verifexport.SetGenvarHook(nil)
+	newCall := func() { // a new compilation starts in the calling goroutine
+		g := goid()
+		mu.Lock()
+		perCall[g] = append(perCall[g], []int{})
+		mu.Unlock()
+	}
+	flush := func() {
+		mu.Lock()
+		for _, calls := range perCall {
+			for _, vs := range calls {
+				if len(vs) > 0 {
+					obs.Genvars = append(obs.Genvars, vs)
+				}
+			}
+		}
+		perCall = map[uint64][][]int{}
+		mu.Unlock()
+	}
 	verifexport.GenReset()
 
 	mk := func(entry, pkey, dkey string, o outcome) histCall {
@@ -71,8 +95,16 @@ func runConcurrent(c concCase) concObs {
 		}
 		return histCall{callObs: co, PKey: pkey, DKey: dkey, DClass: c.DClasses[dkey]}
 	}
+	cfgOf := func(name string) config.ReportConfiguration {
+		rc := config.DefaultReportConfiguration()
+		if name == "alt" {
+			rc.ReportSchemaIri, rc.LexicalSchemaIri = altReportSchema, altLexicalSchema
+		}
+		return rc
+	}
 	compile := func(pkey string) outcome {
 		return guarded(func() (string, *rego.PreparedEvalQuery, error) {
+			newCall()
 			h, err := pkg.CompileProfile(c.Profiles[pkey], false, nil)
 			if err != nil {
 				return "", h, err
@@ -80,17 +112,24 @@ func runConcurrent(c concCase) concObs {
 			return "", h, nil
 		})
 	}
-	validate := func(pkey, dkey string) outcome {
+	validate := func(pkey, dkey, cfg string) outcome {
 		return guarded(func() (string, *rego.PreparedEvalQuery, error) {
-			r, err := pkg.ValidateWithConfiguration(c.Profiles[pkey], c.Docs[dkey], false, nil, clockA, repCfg)
+			newCall()
+			r, err := pkg.ValidateWithConfiguration(c.Profiles[pkey], c.Docs[dkey], false, nil, clockA, cfgOf(cfg))
 			return r, nil, err
 		})
 	}
-	validateCompiled := func(h *rego.PreparedEvalQuery, dkey string) outcome {
+	validateCompiled := func(h *rego.PreparedEvalQuery, dkey, cfg string) outcome {
 		return guarded(func() (string, *rego.PreparedEvalQuery, error) {
-			r, err := pkg.ValidateCompiledWithConfiguration(h, c.Docs[dkey], false, nil, clockA, repCfg)
+			r, err := pkg.ValidateCompiledWithConfiguration(h, c.Docs[dkey], false, nil, clockA, cfgOf(cfg))
 			return r, nil, err
 		})
+	}
+	dk := func(dkey, cfg string) string { // the report is a function of (profile, doc, configuration)
+		if cfg == "alt" {
+			return dkey + "@alt"
+		}
+		return dkey
 	}
 
 	// phase 0: solo values, sequentially
@@ -102,7 +141,7 @@ func runConcurrent(c concCase) concObs {
 					k := call.PKey + "|" + d
 					if !seen[k] {
 						seen[k] = true
-						obs.Calls = append(obs.Calls, mk("validate", call.PKey, d, validate(call.PKey, d)))
+						obs.Calls = append(obs.Calls, mk("validate", call.PKey, d, validate(call.PKey, d, "")))
 					}
 				}
 				continue
@@ -111,10 +150,13 @@ func runConcurrent(c concCase) concObs {
 			if call.Entry == "validateCompiled" {
 				pk = c.SharedP[call.Shared]
 			}
-			k := pk + "|" + call.DKey
+			k := pk + "|" + dk(call.DKey, call.Cfg)
 			if !seen[k] {
 				seen[k] = true
-				obs.Calls = append(obs.Calls, mk("validate", pk, call.DKey, validate(pk, call.DKey)))
+				o := validate(pk, call.DKey, call.Cfg)
+				hc := mk("validate", pk, dk(call.DKey, call.Cfg), o)
+				hc.DClass = c.DClasses[call.DKey]
+				obs.Calls = append(obs.Calls, hc)
 			}
 		}
 	}
@@ -127,10 +169,7 @@ func runConcurrent(c concCase) concObs {
 		}
 		shared[i] = o.h
 	}
-	mu.Lock()
-	obs.Genvars = append(obs.Genvars, vals)
-	vals = nil
-	mu.Unlock()
+	flush()
 	verifexport.GenReset()
 
 	// phase 1: all goroutines released together, Rounds times
@@ -157,10 +196,14 @@ func runConcurrent(c concCase) concObs {
 						o := compile(call.PKey)
 						results[gi] = append(results[gi], res{mk("compile", call.PKey, "", o), o.h})
 					case "validate":
-						results[gi] = append(results[gi], res{mk("validate", call.PKey, call.DKey, validate(call.PKey, call.DKey)), nil})
+						hc := mk("validate", call.PKey, dk(call.DKey, call.Cfg), validate(call.PKey, call.DKey, call.Cfg))
+						hc.DClass = c.DClasses[call.DKey]
+						results[gi] = append(results[gi], res{hc, nil})
 					case "validateCompiled":
 						pk := c.SharedP[call.Shared]
-						results[gi] = append(results[gi], res{mk("validateCompiled", pk, call.DKey, validateCompiled(shared[call.Shared], call.DKey)), nil})
+						hc := mk("validateCompiled", pk, dk(call.DKey, call.Cfg), validateCompiled(shared[call.Shared], call.DKey, call.Cfg))
+						hc.DClass = c.DClasses[call.DKey]
+						results[gi] = append(results[gi], res{hc, nil})
 					}
 				}
 			}
@@ -168,22 +211,33 @@ func runConcurrent(c concCase) concObs {
 	}
 	close(start)
 	wg.Wait()
-	mu.Lock()
-	obs.Genvars = append(obs.Genvars, vals)
-	vals = nil
-	mu.Unlock()
+	flush()
 	for _, rs := range results {
 		for _, r := range rs {
 			obs.Calls = append(obs.Calls, r.call)
 			if r.call.Entry == "compile" && r.h != nil && r.call.Kind == "handle" {
 				// probe the handle compiled under concurrency
 				for _, d := range c.Probes {
-					obs.Calls = append(obs.Calls, mk("validateCompiled", r.call.PKey, d, validateCompiled(r.h, d)))
+					obs.Calls = append(obs.Calls, mk("validateCompiled", r.call.PKey, d, validateCompiled(r.h, d, "")))
 				}
 			}
 		}
 	}
 	return obs
+}
+
+// goid returns the id of the calling goroutine (parsed from the stack header; used only to attribute hook events)
+func goid() uint64 {
+	var buf [64]byte
+	n := runtime.Stack(buf[:], false)
+	var id uint64
+	for _, ch := range buf[len("goroutine "):n] {
+		if ch < '0' || ch > '9' {
+			break
+		}
+		id = id*10 + uint64(ch-'0')
+	}
+	return id
 }
 
 func init() {
